@@ -399,7 +399,7 @@ func (e *FunctionCallExpr) Value(ctx *hcl.EvalContext) (cty.Value, hcl.Diagnosti
 				return cty.DynamicVal, diags
 			}
 			if !expandVal.IsKnown() {
-				return cty.DynamicVal, diags
+				return cty.DynamicVal.WithSameMarks(expandVal), diags
 			}
 
 			// When expanding arguments from a collection, we must first unmark
